@@ -171,6 +171,11 @@ class RecFile(object):
         if data:
             self.events.append(bytes(data))
 
+    def writelines(self, lines):
+        # io.IOBase.writelines: one write() call per item, nothing atomic about it
+        for line in lines:
+            self.write(line)
+
     def flush(self):
         pass
 
